@@ -22,7 +22,7 @@ func VerifC17Conc() {
 	expirer := verifParam("expirer", 0)
 	rc, m := c17New(size, verifParam("fail", 1) == 1)
 	ctx := context.Background()
-	c17SeedSet(rc, m, size, verifParam("entries", 1))
+	c17SeedPublic(rc, m, size, verifParam("entries", 1))
 	nr := c17NumRanges(size)
 
 	type res struct {
@@ -41,7 +41,7 @@ func VerifC17Conc() {
 	}
 	verifMapOrderNondet(verifParam("map_order", 1) == 1)
 	// one completion channel per goroutine (independent operations: fewer equivalent schedules)
-	done := make([]chan int, R+1)
+	done := make([]chan int, R+2)
 	for i := range done {
 		done[i] = make(chan int, 1)
 	}
@@ -59,15 +59,29 @@ func VerifC17Conc() {
 			done[i] <- i
 		}()
 	}
-	n := R
+	wait := []int{}
+	for i := 0; i < R; i++ {
+		wait = append(wait, i)
+	}
 	if expirer == 1 {
-		n++
+		wait = append(wait, R)
 		go func() {
 			rc.DeleteOldEntries(ctx, time.Minute)
 			done[R] <- R
 		}()
 	}
-	for i := 0; i < n; i++ {
+	if verifParam("setter", 0) == 1 {
+		// a goroutine stores an arbitrary valid range (with the remote bytes) through SetRange
+		a, b := c17RangeByIndex(size, verifChoice("set", nr))
+		value := make([]byte, b-a)
+		copy(value, m.data[a:b])
+		wait = append(wait, R+1)
+		go func() {
+			rc.SetRange(ctx, a, b-a, value)
+			done[R+1] <- R + 1
+		}()
+	}
+	for _, i := range wait {
 		<-done[i]
 	}
 	verifMapOrderNondet(false)
@@ -83,10 +97,8 @@ func VerifC17Conc() {
 		c17CheckGet(m, id, r.a, r.ln, r.got, r.err, m.fails)
 	}
 	verifAssert(errs == m.fails, id+": number of failed reads differs from the number of failed remote fetches")
-	c17Invariant(rc, m, id)
-	// the cache is still usable: a further read works and no lock is left held
-	fails0 := m.fails
-	got, err := rc.GetRange(ctx, 0, int64(size))
-	c17CheckGet(m, id, 0, int64(size), got, err, fails0)
+	// the cache is still usable (no lock left held) and whatever it holds now reads right:
+	// every range of the file, remote working (black-box invariant)
+	c17Probe(rc, m, size, id)
 	verifReach("end")
 }
